@@ -81,12 +81,35 @@ fn stat_event(root: &Path, segs: &Value) -> Value {
     }
 }
 
+/// Which built-in asset (compiled into the server from src/app/controller/*/) the body of this raw response equals
+/// byte for byte: "index" | "style" | "script" | "favicon" | "404" | "" (Router!AssetViolations reads it).
+fn builtin_of(raw: &[u8]) -> &'static str {
+    let body = match raw.windows(4).position(|w| w == b"\r\n\r\n") {
+        Some(p) => &raw[p + 4..],
+        None => return "",
+    };
+    let assets: [(&'static str, &'static [u8]); 5] = [
+        ("index", include_bytes!("/repo/src/app/controller/index/index.html")),
+        ("style", include_bytes!("/repo/src/app/controller/style/style.css")),
+        ("script", include_bytes!("/repo/src/app/controller/script/script.js")),
+        ("favicon", include_bytes!("/repo/src/app/controller/favicon/favicon.svg")),
+        ("404", include_bytes!("/repo/src/app/controller/not_found/404.html")),
+    ];
+    for (name, bytes) in assets {
+        if body == bytes {
+            return name;
+        }
+    }
+    ""
+}
+
 /// the same request through the real binary on a loopback socket (production entry point only)
 fn serve_one_wire(q: &Value, method: &str, obs_mode: &str, addr: std::net::SocketAddr) -> Value {
     let bytes = request_bytes(q, method);
     let raw = crate::d_wire::exchange(addr, &bytes, std::time::Duration::from_secs(5)).unwrap_or_default();
     let mut r = project(&raw, obs_mode);
     r["outcome"] = json!(if raw.is_empty() { "no_response" } else { "ok" });
+    r["builtin"] = json!(builtin_of(&raw));
     let mut qq = q.clone();
     qq["method"] = json!(method);
     qq["entry"] = json!("prod");
@@ -99,6 +122,7 @@ fn serve_one(q: &Value, method: &str, obs_mode: &str) -> Value {
     let ran = if q["entry"].as_str().unwrap_or("prod") == "legacy" { run_legacy(mock, wire) } else { run_prod(mock, wire, 10000) };
     let mut r = project(&ran.raw, obs_mode);
     r["outcome"] = json!(ran.outcome);
+    r["builtin"] = json!(builtin_of(&ran.raw));
     if ran.outcome == "panic" {
         r["loc"] = json!(ran.loc);
         r["msg"] = json!(ran.msg);
